@@ -166,3 +166,36 @@ func (c *Code) Flatten() []*Code {
 func (c *Code) Filename() string {
 	return c.filename
 }
+
+// codeState records how much of a code object and of its symbol table exists
+// at some point, so that everything added later can be removed again.
+type codeState struct {
+	instructions int
+	constants    int
+	names        int
+	children     int
+	source       string
+	symbols      symbolTableState
+}
+
+func (c *Code) saveState() codeState {
+	return codeState{
+		instructions: len(c.instructions),
+		constants:    len(c.constants),
+		names:        len(c.names),
+		children:     len(c.children),
+		source:       c.source,
+		symbols:      c.symbols.saveState(),
+	}
+}
+
+func (c *Code) restoreState(s codeState) {
+	c.instructions = c.instructions[:s.instructions]
+	c.constants = c.constants[:s.constants]
+	c.names = c.names[:s.names]
+	c.children = c.children[:s.children]
+	c.source = s.source
+	c.loops = nil
+	c.pipeActive = false
+	c.symbols.restoreState(s.symbols)
+}
